@@ -483,6 +483,17 @@ fn update_weights(
 
     let weight = calculate_weight(lp_asset, unlocking_duration)?;
 
+    let (_, mut address_lp_weight) =
+        get_latest_address_weight(deps.storage, receiver, &lp_asset.denom)?;
+
+    // when closing, never remove more weight than the address actually holds, so the contract's
+    // total weight stays in sync with the sum of the addresses' weights
+    let weight = if fill {
+        weight
+    } else {
+        weight.min(address_lp_weight)
+    };
+
     let (_, mut lp_weight) =
         get_latest_address_weight(deps.storage, &env.contract.address, &lp_asset.denom)?;
 
@@ -506,9 +517,6 @@ fn update_weights(
     )?;
 
     // update the user's weight for this LP
-    let (_, mut address_lp_weight) =
-        get_latest_address_weight(deps.storage, receiver, &lp_asset.denom)?;
-
     if fill {
         // filling position
         address_lp_weight = address_lp_weight.checked_add(weight)?;
